@@ -498,6 +498,47 @@ namespace
                   e.value = top + 0.055L / 2.5L * dz - 1e-6L / 5.0L * dz * dz;
                   return e;
                 });
+            if (mode == 0)
+              {
+                // the FEATURE's top given at points (2e4 by default, 6e4 at Q, 1.1e5 at a second point), the model without a top of its own:
+                // linear and Chapman models start at the local top of the feature
+                const P2 Q2 = {{-2.0*s, -3.0*s}};
+                const std::string ftop = "[[2e4],[6e4,[" + pt(Q) + "]],[1.1e5,[" + pt(Q2) + "]]]";
+                std::vector<Probe> pf;
+                for (double d : {3e4, 5.9e4, 6.1e4, 8e4, 1.2e5, 1.99e5}) pf.push_back({Q[0], Q[1], d});
+                for (double d : {1.09e5, 1.11e5, 1.5e5, 1.99e5}) pf.push_back({Q2[0], Q2[1], d});
+                auto local_top = [=](const Probe &p) { return p.x == Q[0] ? 6e4 : 1.1e5; };
+                auto addf = [&](const std::string &family, const std::string &label, const std::string &tm, std::function<Expect(const Probe &)> e)
+                {
+                  Case c; c.family = family; c.label = std::string(AREA[f]) + (sph ? ", spherical, " : ", cartesian, ") + "top of the feature given at points: " + label;
+                  c.spherical = sph;
+                  c.world = world(globals(sph), {std::string("{\"model\":\"") + AREA[f] + "\",\"name\":\"A\",\"min depth\":" + ftop + ",\"max depth\":" + num(FMAX) + ",\"coordinates\":" + pts({{-5*s,-5*s},{5*s,-5*s},{5*s,5*s},{-5*s,5*s}}) + ",\"temperature models\":[" + tm + "]}"});
+                  c.probes = pf; c.request = {{{1,0,0}}}; c.expect = e; c.rel_tol = 1e-7; c.abs_tol = 1e-7;
+                  out.push_back(c);
+                };
+                for (double Tt : {300.0, -1.0})
+                  addf("temperature/linear/feature top given at points", "linear top=" + num(Tt) + " bottom=1600", "{\"model\":\"linear\",\"max depth\":" + num(FMAX) + ",\"top temperature\":" + num(Tt) + ",\"bottom temperature\":1600}",
+                       [=](const Probe &p)
+                  {
+                    Expect e; e.defined = true;
+                    const double lt = local_top(p);
+                    if (p.depth < lt) { e.value = background(p.depth); return e; }
+                    const LD top = Tt < 0 ? background(lt) : static_cast<LD>(Tt);
+                    e.value = top + (static_cast<LD>(p.depth) - lt) * (1600 - top) / (static_cast<LD>(FMAX) - lt);
+                    return e;
+                  });
+                if (f == 0)
+                  addf("temperature/chapman/feature top given at points", "chapman top=293.15", "{\"model\":\"chapman\",\"top temperature\":293.15,\"top heat flux\":0.055,\"thermal conductivity\":2.5,\"heat generation per unit volume\":1e-6}",
+                       [=](const Probe &p)
+                  {
+                    Expect e; e.defined = true;
+                    const double lt = local_top(p);
+                    if (p.depth < lt) { e.value = background(p.depth); return e; }
+                    const LD dz = static_cast<LD>(p.depth) - lt;
+                    e.value = 293.15L + 0.055L / 2.5L * dz - 1e-6L / 5.0L * dz * dz;
+                    return e;
+                  });
+              }
             add("composition/uniform/model range given at points", "composition 1 fraction 0.75", "\"composition models\":[{\"model\":\"uniform\",\"compositions\":[1],\"fractions\":[0.75]" + rj + "}]", {{{2,1,0}}},
                 [=](const Probe &p) { Expect e; e.defined = true; e.value = in_range(p) ? 0.75L : 0.0L; return e; });
           }
